@@ -65,47 +65,16 @@ term_formula.function = "state_metrics"
 EXTRA_CLAUSES = {"term.formula": term_formula}
 
 
+C13_FUNCS = ["trace_norm", "trace_distance", "helstrom_holevo", "hilbert_schmidt", "bures_distance", "bures_angle", "sub_fidelity", "fidelity", "hilbert_schmidt_inner_product"]
+MUTS = [
+    ("helstrom_holevo", "1 / 2 + 1 / 2 * (trace_norm(rho - sigma)) / 2", "1 / 2 + 1 / 2 * (trace_norm(rho - sigma))"),
+    ("trace_distance", "trace_norm(rho - sigma) / 2", "trace_norm(np.abs(rho - sigma)) / 2"),
+    ("bures_distance", "2.0 * (1.0 - ", "2.0 * (1.0 + "),
+    ("sub_fidelity", "np.trace(rho @ sigma @ rho @ sigma)", "np.trace(rho @ sigma @ sigma @ rho)"),
+]
+
+
 def prove(tier, seed):
-    from contracts.metrics_c import CONTRACTS, TermContract
-    from vt import extract
-    from vt.pyvc.termvc import TermEngine
+    from vt.pyvc.termproofs import prove_terms
 
-    records = []
-    functions = []
-    srcs = {}
-
-    def run(name, src):
-        rel, params, req, spec, text = CONTRACTS[name]
-        e = TermEngine(src.function(name), TermContract(params, req, spec, text), name, "all inputs satisfying requires")
-        recs = e.run()
-        for x in recs:
-            if x["status"] != "discharged":
-                x["replay"] = [dict(clause="term.formula", function=name, input_class="formula/%s" % name, params=dict(fn=name, seed=1))]
-        return recs
-
-    for name, (rel, *_r) in CONTRACTS.items():
-        srcs[name] = extract.Source(rel)
-        functions.append(srcs[name].info(name))
-        records += run(name, srcs[name])
-    planted = {"tried": 0, "refuted": 0, "survivors": [], "anchors_missing": [], "detail": []}
-    muts = [("helstrom_holevo", "1 / 2 + 1 / 2 * (trace_norm(rho - sigma)) / 2", "1 / 2 + 1 / 2 * (trace_norm(rho - sigma))"), ("trace_distance", "trace_norm(rho - sigma) / 2", "trace_norm(np.abs(rho - sigma)) / 2"), ("bures_distance", "2.0 * (1.0 - ", "2.0 * (1.0 + "), ("sub_fidelity", "np.trace(rho @ sigma @ rho @ sigma)", "np.trace(rho @ sigma @ sigma @ rho)")]
-    for name, old, new in muts[: (4 if tier == "thorough" else 2)]:
-        try:
-            m = srcs[name].mutated(old, new)
-        except KeyError:
-            planted["anchors_missing"].append("%s: %s" % (name, old))
-            continue
-        bad = [x for x in run(name, m) if x["status"] != "discharged"]
-        planted["tried"] += 1
-        if bad:
-            planted["refuted"] += 1
-            planted["detail"].append({"mutant": "%s: %s -> %s" % (name, old, new), "not_discharged": len(bad), "first": bad[0]["text"][:100]})
-        else:
-            planted["survivors"].append("%s: %s" % (name, old))
-    for i, x in enumerate(records):
-        x["_id"] = "c13.%d" % i
-        # term-level refutations are candidates only (uninterpreted operations): never reported without a failing input
-        x["clean"] = False
-    per = {n: sum(1 for x in records if x.get("claim") and x["function"] == n) for n in CONTRACTS}
-    sc = {"nonzero_claim_obligations": {"ok": all(v > 0 for v in per.values()), "detail": per}, "planted_bugs_all_refuted": {"ok": planted["tried"] == planted["refuted"], "detail": planted}}
-    return dict(records=records, functions=functions, instances=len(CONTRACTS), planted=planted, selfchecks=sc)
+    return prove_terms(C13_FUNCS, MUTS, tier, "c13")
